@@ -81,7 +81,7 @@ func c14(tier string) {
 	ctx := lib.NewCtx("C14", tier)
 	ctx.Rule = "random cyclic graphs decorated with AMF-shaped source maps (line/column magnitudes 0..30 digits incl. 2^31, 2^32+1, 2^53+1; equal start/end; nodes in the root file, in one of 0-3 additional files, all in one additional file; nodes with property-level entries only; nodes without entries; entry order shuffled) validated with 7 validations (plain, alternative+nested, or-branches, inverse, nested-in-nested, atLeast) on three levels; every result, sub-result and trace is compared with the recorded truth, and the result set is compared with the undecorated data's; " +
 		"non-trivial & distinct = decorated graph with at least one located and one unlocated result"
-	ctx.Assumptions = []string{"at most one node-level lexical entry per node, each node listed in at most one additional location, source information present whenever lexical entries are",
+	ctx.Assumptions = []string{"at most one node-level lexical entry per node, each node listed in at most one additional location; when the data has lexical entries but no source information node (1 document in 6) the uri is not judged, presence and range are",
 		"a trace is about the focus node of the result (or sub-result) that holds it"}
 	n := ctx.N(1200, 20000)
 	if !ctx.IsShard() {
@@ -134,6 +134,12 @@ func c14(tier string) {
 				case !has && present:
 					ctx.Violation("location-invented", fmt.Sprintf("%s about %s carries a location although the node has no node-level lexical entry (property-level only: %v)", w, short1(focus), sm.PropOnly[focus]), base)
 				case has:
+					if sm.NoFileInformation {
+						if lm, ok := loc.(map[string]any); ok {
+							want.URI, _ = lm["uri"].(string) // not specified without file information: only presence and range are judged
+						}
+						ctx.Count("locations_judged_without_file_information", 1)
+					}
 					if d := checkLocation(loc, want); d != "" {
 						ctx.Violation("location-wrong", fmt.Sprintf("%s about %s: %s", w, short1(focus), d), base)
 					}
